@@ -99,6 +99,17 @@ func c02Repeat(useShipped bool) func(t *rapid.T) {
 				}
 			}
 		}
+		grown := false
+		if !useShipped && len(cmds) >= 2 && !strings.HasPrefix(string(cls), "in-memory") && rapid.IntRange(0, 3).Draw(t, "grown-copy") == 0 {
+			// the first copy reaches its content by growing at run time (searched before with NLP on,
+			// extended, then asked a plain question first); the second copy was loaded whole
+			k := rapid.IntRange(1, len(cmds)-1).Draw(t, "grown-from")
+			part := gen.Load(t, cmds[:k])
+			part.SearchUniversal("find files", database.SearchOptions{Limit: 5, UseNLP: true})
+			part.Commands = append(part.Commands, gen.Load(t, cmds[k:]).Commands...)
+			part.SearchUniversal("list", database.SearchOptions{Limit: 5, UseNLP: false, UseFuzzy: rapid.Bool().Draw(t, "grown-fuzzy")})
+			db, grown = part, true
+		}
 		withEmb := false
 		if !useShipped && len(cmds) <= 80 && rapid.IntRange(0, 2).Draw(t, "embeddings") == 0 {
 			// the optional semantic stage: equal index content attached to both copies
@@ -180,6 +191,9 @@ func c02Repeat(useShipped bool) func(t *rapid.T) {
 		labels := []string{"db:" + string(cls), "q:" + string(qcls)}
 		if withEmb {
 			labels = append(labels, "embedding-index-attached")
+		}
+		if grown {
+			labels = append(labels, "grown-copy")
 		}
 		if tie {
 			labels = append(labels, "tie-present")
